@@ -1,5 +1,5 @@
 (* C03 -- re-encoding a decoded message is stable, and byte-exact for canonical input. *)
-From NV Require Import Lib.Base Codec.Lang Codec.Def Codec.Sem Codec.Total Codec.Dispatch Codec.WF Codec.RoundTrip Codec.DecodeWF Codec.Final
+From NV Require Import Lib.Base Codec.Lang Codec.Def Codec.Sem Codec.Total Codec.Dispatch Codec.GenDefs Codec.WF Codec.RoundTrip Codec.DecodeWF Codec.Final
   Gen.GenMsgs Gen.GenTypes.
 From Coq Require Import String.
 Open Scope N_scope.
